@@ -819,6 +819,11 @@ impl CanonicalizeContext {
 					let mn = create_mathml_element(&doc, "mn");
 					mo.set_text("-");
 					mn.set_text(&text[first_char.len_utf8()..]);
+					if let Some(id) = mathml.attribute_value("id") {
+						// the mrow is an added one that goes away when it is inside of another mrow -- the number keeps the author's id
+						mn.set_attribute_value("id", id);
+						mathml.remove_attribute("id");
+					}
 					set_mathml_name(mathml, "mrow");
 					mathml.set_attribute_value(CHANGED_ATTR, ADDED_ATTR_VALUE);
 					mathml.replace_children([mo,mn]);
